@@ -8,6 +8,7 @@ import pres_check as K
 EXTRA_VO = PC.EXTRA_VO
 TRUSTED_BASE = K.TRUSTED_COMMON + [
     "encryption sub-protocol modelled in coq/Model/Pres.v (SVenc / PVenc: hashed items c1, c2, r1, r2; a statement requesting scalar decryption needs the decryptable part) and coq/Model/Preds.v (honest prover, ElGamal in the exponent); the byte decomposition (32 byte ciphertexts, per-byte Schnorr proofs, 8-bit bulletproofs, weighted sum) is NOT modelled in Coq and is exercised on the implementation only",
+    "blind spot: the encrypt-and-decrypt proof (AES-GCM part, its own copy of the message generator) has no external deviating prover; it is exercised with honest holders and by mutation of finished proofs only (seed C10-f is not caught, DESIGN section 17)",
     "decryption: theorem C10_decrypt_group (c2 - dk*c1 = gm*m for the extracted (m, k)); scalar / claim decryption (decrypt_scalar, decrypt_and_verify) checked on the implementation for every claim type and value class",
 ]
 ASSUMPTIONS = ["bulletproofs-bls soundness (each byte ciphertext opens to a value in 0..255), AES-GCM, no known discrete-log relation between message generator and encryption key",
